@@ -6,6 +6,7 @@ use std::time::{Duration, Instant};
 mod analyze;
 mod corpus;
 mod iter;
+mod parse;
 mod quote;
 mod search;
 mod state_ops;
@@ -34,6 +35,7 @@ fn family(name: &str) -> Option<Box<dyn Family>> {
         "iter" => Some(Box::new(iter::Iter)),
         "analyze" => Some(Box::new(analyze::Analyze)),
         "quote" => Some(Box::new(quote::Quote)),
+        "parse" => Some(Box::new(parse::Parse)),
         "search" => Some(Box::new(search::Search)),
         _ => None,
     }
